@@ -188,6 +188,7 @@ def check_property(pid, tier='quick', seed=0, replay_only=None):
             'kani_complete_proofs': [k for k in kani_res if k.get('counts_as_proof')],
             'undecided': undecided + never_proved,
             'stability': {u: getattr(r, 'stability', None) for u, r in results.items()},
+            'cvc5_cross_check': {u: getattr(r, 'cvc5', None) for u, r in results.items()},
             'not_reached': entry.get('not_reached', ''),
             'exhaustive': False,
         },
